@@ -165,8 +165,8 @@ def run(ctx):
         sc = scns[r["id"]]
         ctx.count()
         ctx.nontriv(json.dumps(sc, sort_keys=True))
-        if r.get("toolerror"):
-            raise ToolError(r["toolerror"])
+        if r.get("toolerror") or r.get("sig") == "TOOL":
+            raise ToolError(r.get("toolerror") or r.get("detail"))
         if r.get("died"):
             st = r.get("stderr", "")
             m = re.search(r"panic: ([^\n]+)", st)
